@@ -428,7 +428,8 @@ def check_point_lists(ctx, db):
     ctx.check(ok, 'R-TABLE', 'point-list/reader-codecs', rsw.loc(), 'the reader decodes every type the writer emits with the matching codec, plus type 5', 'reader table: %s' % rt)
     # implicit closing delta
     tw = norm(clone.canon(w.body, w, ren=clone.Renamer(w, params_by_name=True)))
-    dec = re.search(r'if \(\$closed\)\n\s+\(--v\d+\)', tw) is not None
+    dec = any(i.k == 'IfStmt' and _strip_casts(i.child('cond')).k == 'DeclRefExpr' and _strip_casts(i.child('cond')).dk == 'param' and 'bool' in (_strip_casts(i.child('cond')).t or '')
+              and any((u.k == 'UnaryOperator' and u.op in ('--', 'post--')) or (u.k == 'CompoundAssignOperator' and u.op == '-=' and u.child('rhs').cv == 1) for u in i.child('then').walk()) for i in w.walk())
     arm = next((stmts for labels, stmts, top in tables.switch_arms(rsw) if 0 in labels), [])
     ta = norm(' '.join(s.text() for s in arm))
     rec = any(i.k == 'IfStmt' and norm(i.child('cond').text()) == 'closed' and any(u.k == 'UnaryOperator' and u.op in ('post++', '++') and norm(u.child('sub').text()) == 'num' for u in i.child('then').walk()) for s in arm for i in s.walk())
